@@ -148,7 +148,28 @@ impl<T> SourceText<T> where T: AsRef<str> {
     /// is not within the text.
     pub fn previous_position(&self, base: Pos) -> Option<Pos> {
         base.with_byte_offset(self.offset.byte,
-            |b| self.metrics.previous_position(self.as_str(), b))
+                |b| self.metrics.previous_position(self.as_str(), b))
+            .map(|prev| self.first_line_position(prev))
+    }
+
+    /// Returns the given position with its column measured from the start
+    /// position if it lies on the first line of the text. The column metrics
+    /// measure columns from the start of the text, which is not the start of
+    /// the line when the text starts at a nonzero column.
+    fn first_line_position(&self, pos: Pos) -> Pos {
+        if pos.page.line != self.offset.page.line
+            || self.offset.page.column == 0
+        {
+            return pos;
+        }
+        let mut new_pos = self.offset;
+        while new_pos.byte < pos.byte {
+            match self.next_position(new_pos) {
+                Some(next) => new_pos = next,
+                None       => break,
+            }
+        }
+        new_pos
     }
 
     /// Returns true if a line break is positioned at the given byte position in
@@ -170,16 +191,16 @@ impl<T> SourceText<T> where T: AsRef<str> {
     /// Returns the position of the start of line containing the given base
     /// position.
     pub fn line_start_position(&self, base: Pos) -> Pos {
-        base.with_byte_offset(self.offset.byte,
+        let start = base.with_byte_offset(self.offset.byte,
                 |b| Some(self.metrics.line_start_position(self.as_str(), b)))
-            .unwrap()
+            .unwrap();
+        self.first_line_position(start)
     }
 
     /// Returns the position at the start of the next line after the given base
     /// position.
     pub fn previous_line_end_position(&self, base: Pos) -> Option<Pos> {
-        base.with_byte_offset(self.offset.byte,
-            |b| self.metrics.previous_line_end_position(self.as_str(), b))
+        self.previous_position(self.line_start_position(base))
     }
 
     /// Returns the position at the start of the next line after the given base
